@@ -55,6 +55,12 @@ inductive Op (α : Type) where
   | samples                           -- d.mc.samples()
   | recalc                            -- d.recalculate()
   | setGlobal (g : Nat)               -- q.set_monte_carlo_sample_size(g)
+  | display (bins : Nat) (window : Option (α × α))
+                                      -- d.mc.show_histogram(bins, range=window, …): a picture of the
+                                      -- samples with the caller's bin count and display window
+  | bystander                         -- anything done to OTHER objects: a figure drawn, a fit, another
+                                      -- quantity configured / simulated / printed, a function run
+                                      -- under a temporary sample size
 
 inductive Out (α : Type) where
   | ok
@@ -152,6 +158,11 @@ def step (w : World α) (s : St α) : Op α → St α × Out α
     (s, .sampleSet (s.sim.getD 0))
   | .recalc => (clear s, .ok)
   | .setGlobal g => ({ s with global := g }, .ok)
+  -- looking at the histogram goes through `d.mc` (a simulation is drawn if none is stored) and
+  -- then only READS samples and settings: nothing is stored, whatever bins / range are displayed
+  | .display _ _ => (ensure s, .ok)
+  -- what happens to other objects does not touch this quantity nor the configured global size
+  | .bystander => (s, .ok)
 
 /-- run a history -/
 def run (w : World α) (s : St α) : List (Op α) → St α
